@@ -210,8 +210,10 @@ CHECKS = {
        "past its buffer and always makes progress; bytes are conserved (none lost, duplicated, reordered); a five-byte Remaining Length is an "
        "error after which framing resumes at the next byte. Tie: per-call differential correspondence on PacketBuilder::feed (result, body, "
        "cursor advance) incl. every single split point of short streams, plus a monitor comparing the implementation's results under any "
-       "chunking with the declarative specification. The connection-level clause (events of recv over any chunking) is covered by the "
-       "connection model's correspondence once C05 is claimed; here it is the framing layer.",
+       "chunking with the declarative specification. Connection level: Connection::recv inside connection histories (split/merged buffers, "
+       "garbage, over-long Remaining Length) - the monitor runs the proved framing model on the builder state and the buffer and requires the "
+       "reported unread count, silence on incomplete frames and the kept partial frame to agree; builder state, events and unread count are "
+       "compared with the connection model.",
   ref="DESIGN.md §3 C09, §2.3",
   note=NOTE_COMMON + " Connection::recv is one feed() call followed by packet processing; the lift of chunking independence to connection events is stated in the connection layer.",
   technique="Coq proof of chunking independence (feed_app/drain_app by induction) + refinement to a declarative frame spec + differential correspondence"),
